@@ -1,6 +1,11 @@
 SPECIFICATION Spec
+CONSTANT Prebuild = FALSE
 INVARIANT AssemblyResolves
 INVARIANT ChemFormAttachesGases
 INVARIANT FittingWellFormed
+INVARIANT AbsentSectionIsDefaultArgument
+INVARIANT PresentSectionReachesModel
+INVARIANT ModelLayerKeysEffective
+INVARIANT LayerKeysTyped
 CONSTRAINT Emit
 CHECK_DEADLOCK FALSE
